@@ -87,7 +87,7 @@ def main():
         rc, o = sh(["git", "-C", "/repo", "worktree", "add", "--detach", repo, "HEAD"])
         assert rc == 0, o
     if os.path.exists(verif):
-        sh(["git", "-C", verif, "checkout", "--detach", sh(["git", "-C", "/verif", "rev-parse", "HEAD"])[1].strip()])
+        sh(["git", "-C", verif, "checkout", "-f", "--detach", sh(["git", "-C", "/verif", "rev-parse", "HEAD"])[1].strip()])
     if not os.path.exists(verif):
         rc, o = sh(["git", "-C", "/verif", "worktree", "add", "--detach", verif, "HEAD"])
         assert rc == 0, o
@@ -108,7 +108,7 @@ def main():
             done.add((d["file"], d["line"], d["op"], d["new"]))
     print(f"worker {wid}: {len(cands)} candidate mutants overall, {len(mine)} for this worker", flush=True)
     for (f, i, k, new) in mine:
-        if (f, i + 1, k, new) in done:
+        if (f, i + 1, k, new.strip()) in done:
             continue
         path = os.path.join(repo, f)
         sh(["git", "-C", repo, "checkout", "--", "."])
